@@ -42,6 +42,7 @@ Definition check (c : case) : bool :=
       && (d_seq (st s) =? f_seq fin)
       && list_eqb N.eqb (d_unused (st s)) (f_unused fin)
       && option_eqb revid_eqb (option_map r_id (winner (d_tree (st s)))) (f_cur fin)
+      && option_eqb revid_eqb (d_cur (st s)) (f_cur fin)   (* the stored current revision (SyncData.RevTreeID) *)
       && (N.of_nat (length (d_tree (st s))) =? N.of_nat (length (f_tree fin)))
       && forallb (row_in (d_tree (st s))) (f_tree fin)
       && list_eqb N.eqb (sort_N (released s)) (f_released fin)
